@@ -93,12 +93,12 @@ def run(tier: str, rd):
     for r in recs:
         for hmsg in r["_hist"]:
             vd.violation("history-dependence", r["_meta"], hmsg)
-    batches = [recs[i:i + 10000] for i in range(0, len(recs), 10000)]
+    batches = [recs[i:i + 4000] for i in range(0, len(recs), 4000)]      # 10000 records (110 MB of JSON) made TLC thrash in 16 GB
     hits = {}
     for bi, batch in enumerate(batches):
         payload = [{k: v for k, v in r.items() if not k.startswith("_")} for r in batch]
         p = common.write_cases(rd, f"exec{bi}.json", payload)
-        r = run_tlc(rd, "ExecuteV", common.v_cfg(), name=f"ExecuteV{bi}", env={"CASES": str(p)}, timeout=3400, heap="16g")
+        r = run_tlc(rd, "ExecuteV", common.v_cfg(), name=f"ExecuteV{bi}", env={"CASES": str(p)}, timeout=1500, heap="16g")
         ev.add_tlc(f"V: {len(batch)} recorded executions vs Execute.tla", r)
         for o in r.json_lines():
             rec = batch[o["viol"] - 1]
